@@ -6,11 +6,11 @@ ALL = ["C%02d" % i for i in range(1, 21)]
 
 CLAIMED = {
  "C01": dict(
-   text="GraphAbs.tla (compact-indexed multigraph, swap-renumbering, most-recent-first directed adjacency, error results leave the graph unchanged) is model-checked exhaustively by TLC for the tiny index type Ix3; the real Graph (Directed/Undirected x Ix3/Ix4/Ix7/u8/u16/u32/usize) is driven with seeded random histories, vacancy/limit scenarios and u8 histories that fill the 255-index space; every public call is one trace event and TLC validates every trace against GraphAbs (MGTrace.tla); obs events carry the result of every query (counts, weights, endpoints, find/contains, neighbors/edges in each direction, edges_connecting, externals, whole-graph iterators forwards and backwards, detached walkers) and are compared with the TLA+ definitions.",
+   text="GraphAbs.tla (compact-indexed multigraph, swap-renumbering, most-recent-first directed adjacency, error results leave the graph unchanged) is model-checked exhaustively by TLC for the tiny index type Ix3, and GraphImpl.tla (the linked adjacency lists, swap_remove re-pointing and list surgery as coded) is model-checked for its structural invariants and for refinement of GraphAbs, with a mutated configuration as negative control; every distinct state of a TLC state cover (GraphCover.tla) is reconstructed on the real Graph and every operation fanned out from it; the real Graph (Directed/Undirected x Ix3/Ix4/Ix7/u8/u16/u32/usize) is driven with seeded random histories, vacancy/limit scenarios and u8 histories that fill the 255-index space; every public call (inherent, via the data::Build trait, data::FromElements) is one trace event and TLC validates every trace against GraphAbs (MGTrace.tla); obs events carry the result of every query (counts, weights, endpoints, find/contains, neighbors/edges in each direction, edges_connecting, externals, whole-graph iterators forwards and backwards, detached walkers) and are compared with the TLA+ definitions.",
    note="Trusted: TLC + Json module, harness recorder (public API only). Exhaustive only for MaxIx=3,W={1}; beyond that recorded histories (exploration). remove_node driven on degree<=5 nodes (spec searches removal orders). u16/u32/usize limits unreachable.",
    design="4/C01", technique="TLA+ spec + TLC model checking + trace validation of real executions"),
  "C02": dict(
-   text="StableAbs.tla (stable indices, any non-live index may be handed out, Err leaves everything unchanged, counts/bounds/iterators describe the same element set) is model-checked by TLC for Ix3; the real StableGraph is driven in debug AND release profiles with seeded random histories, vacancy-stress scenarios that refill to the index limit after reverse/clear_edges/map/filter_map/retain/clone/conversion, and u8 limit histories; TLC validates every recorded trace against StableAbs (MGTrace.tla) including full observations.",
+   text="StableAbs.tla (stable indices, any non-live index may be handed out, Err leaves everything unchanged, counts/bounds/iterators describe the same element set) is model-checked by TLC for Ix3, and StableImpl.tla (doubly linked node free list, singly linked edge free list, vacancy reuse, counters as coded) is model-checked for its structural invariants and refinement of StableAbs with a negative-control configuration; every state of a TLC state cover (StableCover.tla) is reconstructed on the real StableGraph and every operation fanned out from it; the real StableGraph is driven in debug AND release profiles with seeded random histories, vacancy-stress scenarios that refill to the index limit after reverse/clear_edges/map/filter_map/retain/clone/conversion, and u8 limit histories; TLC validates every recorded trace against StableAbs (MGTrace.tla) including full observations.",
    note="Trusted: TLC + Json module, harness recorder. Exhaustive only for MaxIx=3,W={1}. Which vacancy is reused is deliberately unspecified (logged index resolves it). Three genuine defects were found and fixed (KNOWN_FINDINGS.json).",
    design="4/C02", technique="TLA+ spec + TLC model checking + trace validation of real executions"),
  "C03": dict(
@@ -18,9 +18,9 @@ CLAIMED = {
    note="Trusted: TLC + Json module, harness recorder. No bounded model check of SGAbs (its actions are deterministic given the logged results): exploration of recorded histories. Keys are i32 from a small pool (<= 10 distinct).",
    design="4/C03", technique="TLA+ spec + trace validation of real executions"),
  "C04": dict(
-   text="SGAbs.tla states MatrixGraph as a simple graph with stable ids (add_node may return any non-live id; a reused id starts without edges because removal drops the incident edges; edge_count = |E|); the real MatrixGraph (Directed/Undirected x Option/NotZero x u8/u16/u32/usize) is driven with seeded random histories between existing nodes whose node counts cross the 4/8/16/32/64 capacity steps with heavy remove/re-add; TLC validates every trace against SGAbs including has_edge, edge weights, neighbors, edges, neighbors_directed/edges_directed, node and edge references.",
+   text="SGAbs.tla states MatrixGraph as a simple graph with stable ids (add_node may return any non-live id; a reused id starts without edges because removal drops the incident edges; edge_count = |E|); the real MatrixGraph (Directed/Undirected x Option/NotZero x u8/u16/u32/usize) is driven with seeded random histories between existing nodes whose node counts cross the 4/8/16/32/64 capacity steps with heavy remove/re-add; TLC validates every trace against SGAbs including has_edge, edge weights, neighbors, edges, neighbors_directed/edges_directed, node and edge references. One segment in three starts from an exactly-sized, completely filled matrix (widths 2,3,5,6,7) so the first growth must move every cell. MatrixGrow.tla is an implementation-shaped model of the in-place matrix growth (row loop, block vs element-wise swap, rounding, triangular layout) model-checked for every (old capacity, request, exact, directedness) in bounds for layout, no-loss, loop-progress invariants and termination; each completed behaviour is replayed through the real private routine (cfg(petgraph_verif) hook) and the final Vec compared cell by cell.",
    note="Trusted: TLC + Json module, harness recorder. Calls naming absent nodes are outside C04's quantifier and are not driven; a try_update_edge refusal between existing nodes (matrix not grown yet) is accepted as long as nothing changes. Two defects found and fixed (remove_node edge_count, Incoming edge orientation).",
-   design="4/C04", technique="TLA+ spec + trace validation of real executions"),
+   design="4/C04", technique="TLA+ spec + trace validation of real executions; TLA+ model of the growth algorithm model-checked and replayed into the real routine"),
  "C05": dict(
    text="SGAbs.tla states Csr (duplicate add_edge returns false, rows strictly ascending, undirected edges in both rows, from_sorted_edges Ok iff strictly sorted and then equal to the incremental build, out-of-range endpoints Err/panic and unchanged) and adj::List (parallel edges kept, edge index = (from, rank) stable, find/update first match, insertion order); the real structures are driven with seeded random histories including 45-node hubs whose rows cross the 32-entry binary-search cutoff with probes around every neighbour; TLC validates every trace against SGAbs.",
    note="Trusted: TLC + Json module, harness recorder. Queries on absent Csr nodes are documented panics and are not driven. Defects found and fixed: adj::List::update_edge accepted an out-of-range target; Csr undirected edge_references doubled edges (C09).",
@@ -111,7 +111,7 @@ def main():
         "guard": "petgraph_verif",
         "enable": "harness/.cargo/config.toml passes --cfg petgraph_verif in rustflags when building the path dependency /repo",
         "baseline_off_cmd": "cd /repo && cargo test --workspace --no-fail-fast --offline",
-        "source_commits": [],
+        "source_commits": ["b7dfd99"],
         "add_only": True,
       },
       "engines": [{"name": "tlc", "path": "check", "serves_properties": [c["property_id"] for c in checks],
